@@ -138,6 +138,11 @@ def compile_db():
     for s in CORE_UNITS:
         if not os.path.exists(os.path.join(REPO, s)):
             raise AnalysisBroken('core unit missing: ' + s)
+    # core sources the build has gained since (a helper file split off one of the four): part of the core for every rule
+    more = sorted(set(u.path for u in units if u.config == 'systemd' and u.path.startswith('lltdResponder/') and u.path.endswith('.c')) - set(CORE_UNITS))
+    for s in more:
+        CORE_UNITS.append(s)
+        add(s, 'testing', tflags)
     return units
 
 
